@@ -36,7 +36,7 @@ LEVEL_TEXT = (
 
 @st.composite
 def base_config(draw):
-    c = draw(flowcase.sim_case(nx_max=60, max_steps=80, schedules=False, time_kinds=("uniform", "quadratic", "geometric", "random")))
+    c = draw(flowcase.sim_case(nx_max=60, max_steps=80, schedules=False, time_kinds=("uniform", "quadratic", "geometric", "random", "intdays")))
     return c
 
 
